@@ -143,10 +143,6 @@ func c13Run(c *core.Ctx) {
 	query.GetGoroutineManager().MinimumRequiredPerCore = 2
 	defer func() { query.GetGoroutineManager().MinimumRequiredPerCore = prev }()
 	dir := core.Scratch("c13")
-	maxS := 1
-	if c.Thorough() {
-		maxS = 2
-	}
 	k := 0
 	for _, sc := range c13Scenarios() {
 		if sc.Thorough && !c.Thorough() {
@@ -161,6 +157,15 @@ func c13Run(c *core.Ctx) {
 			continue
 		}
 		w.newReports() // anything written so far does not belong to this scenario
+		// thorough: two non-default decisions where the all-default execution has at most 200 choice points (the
+		// number of executions grows with its square, and the race build is slow); one decision otherwise
+		maxS := 1
+		if c.Thorough() {
+			if _, probe := goxRunOnce(dir, sc, sc.CPU, true, nil); len(probe.Points) <= 200 {
+				maxS = 2
+			}
+			c.Observe("scenarios_explored_with_two_decisions", fmt.Sprintf("%s: %v", sc.Name, maxS == 2))
+		}
 		e := &gox.Explorer{MaxPreempt: maxS, MaxMapDev: 1, MaxSwitch: maxS, Stop: c.Expired}
 		if c.Thorough() {
 			e.Shard, e.NShards = c.Shard, c.N
